@@ -85,6 +85,18 @@ def model_check(rep: common.Report, thorough: bool):
             if r2.violated:
                 rep.violation(f"TLC: {r2.violated} violated by the lock-free design with the repaired skip rule on {gname}",
                               {"graph": gname, "prog": prog, "trace": r2.error_trace[:80]})
+    # the lazily initialised slot of RecMethod (spec/LazySlot.tla): every interleaving of 2-3 threads
+    lazy_cfg = "CONSTANTS Threads = {%s}\n Deviations = {%s}\nSPECIFICATION Spec\nVIEW View\nINVARIANT NoEmptyUse\n"
+    for ths in ('"a", "b"', '"a", "b", "c"'):
+        rl = tlc.run_tlc("LazySlot", lazy_cfg % (ths, ""), workers=4)
+        states += rl.distinct
+        trans += rl.states
+        if rl.violated:
+            rep.violation(f"TLC: {rl.violated} violated by the lazy slot protocol", {"trace": rl.error_trace[:60]})
+    rl = tlc.run_tlc("LazySlot", lazy_cfg % ('"a", "b"', '"clearfirst"'), workers=4)
+    rep.set("negative_check_lazy_slot_cleared_first_violates", rl.violated or "NOT VIOLATED")
+    if rl.violated != "NoEmptyUse":
+        raise tlc.MachineryError("negative model check: clearing the closure first no longer violates NoEmptyUse")
     # negative model check 2: skipping keys cached as recursive (deviation "skiptrue" of the pinned tree,
     # repaired by a fix: commit) must violate CacheSound with ONE thread on graph G5
     gen = {"MC_RecGen.tla": recgraphs.mc_module("MC_RecGen", recgraphs.GRAPHS["G5"], recgraphs.PROGRAMS["G5"][0])}
@@ -162,6 +174,7 @@ def free_run(rng: random.Random, idx: int, n_threads: int):
     mod, keymap = recgraphs.build_classes(graph, f"free{idx}")
     classes = list(graph)
     ctl = sched.Controller(keymap, None)
+    ctl.yield_lazy = True
 
     def sample(cls, depth=2):
         out = {}
@@ -177,6 +190,10 @@ def free_run(rng: random.Random, idx: int, n_threads: int):
         return out
 
     plan = {f"t{i}": rng.sample(classes, min(len(classes), rng.randint(1, 3))) for i in range(n_threads)}
+    if rng.random() < 0.5:
+        # every thread starts with the same type: they reach the same lazily initialised methods at once
+        first = rng.choice(classes)
+        plan = {t: [first] + [c for c in cs if c != first] for t, cs in plan.items()}
 
     def body(names):
         def run():
